@@ -72,7 +72,7 @@ def setup():
     sh(f'git -C {REPO} checkout -q -- . ')
     os.makedirs(VER, exist_ok=True)
     sh(f"rsync -a --delete --exclude .git --exclude target --exclude replays --exclude seeded /verif/ {VER}/")
-    for f in ['sim/csim/Cargo.toml', 'sim/miri_c04/Cargo.toml', 'sim/miri_c18/Cargo.toml']:
+    for f in ['sim/csim/Cargo.toml', 'sim/miri_c04/Cargo.toml', 'sim/miri_c18/Cargo.toml', 'sim/miri_mt/Cargo.toml']:
         p = f'{VER}/{f}'
         s = open(p).read().replace('path = "/repo"', f'path = "{REPO}"')
         open(p, 'w').write(s)
